@@ -695,7 +695,7 @@ class ModelWorld(BaseWorld):
             return None
         invalid = None
         if rng.random() < p_inv:
-            invalid = rng.choice(['type', 'max', 'repeat', 'duplicate'])
+            invalid = rng.choice(['type', 'max', 'repeat', 'duplicate', 'nonmember'])
 
         def pick(cands, mx):
             k = rng.choice([1, 1, 1, 2, 2, 3])
@@ -736,6 +736,19 @@ class ModelWorld(BaseWorld):
                 left = left + [left[0]]
             elif not (info.rmax and len(right) + 1 > info.rmax):
                 right = right + [right[0]]
+        elif invalid == 'nonmember':
+            # an asset object that is not (or no longer) part of the model
+            out = [h for h, a in ref.assets.items() if not a.live and h in self.obj
+                   and self.owner.get(h) == mi and self._stale_ok(ref, h)
+                   and (self.L.is_sub(a.type, info.lt) or self.L.is_sub(a.type, info.rt))]
+            if out and not self.guard('association_with_nonmember'):
+                x = rng.choice(sorted(out))
+                if self.L.is_sub(ref.assets[x].type, info.rt) and rng.random() < 0.6:
+                    right = right[:-1] + [x] if len(right) > 1 and rng.random() < 0.5 else right + [x]
+                    if info.rmax and len(right) > info.rmax:
+                        right = [x]
+                elif self.L.is_sub(ref.assets[x].type, info.lt):
+                    left = left + [x] if not (info.lmax and len(left) + 1 > info.lmax) else [x]
         elif invalid == 'duplicate':
             same = [s for s in ref.assoc_order if ref.assocs[s].cls == info.cls]
             if same:
@@ -1104,13 +1117,20 @@ class ModelWorld(BaseWorld):
         if info is None:
             raise Unresolvable()
         left, right = op['left'], op['right']
+        nonmember = False
         for x in left + right:
             ra = ref.assets.get(x)
-            if ra is None or not ra.live or x not in self.obj:
+            if ra is None or x not in self.obj:
                 raise Unresolvable()
+            if not ra.live:
+                if not self._stale_ok(ref, x):
+                    raise Unresolvable()
+                nonmember = True
         if not left or not right:
             raise Unresolvable()
         problem = ref.association_problem(info.cls, left, right)
+        if nonmember:
+            problem = problem or 'nonmember'
         cls = getattr(self.factory.ns, info.cls)
 
         def build():
@@ -1126,6 +1146,14 @@ class ModelWorld(BaseWorld):
             o = call(model.add_association, s)
         if problem:
             self.count('fault:rejected_assoc_' + problem.split(':')[0])
+            if problem == 'nonmember':
+                # not one of C06's cases: an asset that is not part of the model. Whatever
+                # happens, the model must not end up referring to it, and a raise is atomic
+                if not o.raised:
+                    self.fail('C05.associations', f'{where} was accepted although an asset in it '
+                                                  f'is not part of the model')
+                self.check_model(mi, raised=True, where=where + ' [asset not in the model]')
+                return 'rejected'
             self.count('oracle:C06.rejected')
             if not o.raised:
                 if 'C06' in self.armed:
